@@ -74,11 +74,36 @@ abstract.register("x", plain)
 
 nocache = dataset.nocache(_f_plain)
 
+# a self-referential graph: one implementation of `cyclic` is built on a with_options derivative of `cyclic`
+def _f_cyclic(a=Option("A", 0)):
+    CALLS.append(("cyclic", a))
+    return ("cyclic", a)
+
+
+CALLS = []  # body executions in this process (a stored value must be served without running the body)
+cyclic = dataset(_f_cyclic, dispatch=Option("D", "plain"))
+
+
+def _f_discounted(base=cyclic.with_options({"D": "plain"}), b=Option("B", 0)):
+    return ("discounted", base, b)
+
+
+cyclic.register("x", dataset(_f_discounted))
+
+
+def _f_counted(a=Option("A", 0)):
+    CALLS.append(("counted", a))
+    return ("counted", a)
+
+
+counted = dataset(_f_counted, effects=[eff])
+
+
 def late_impl(a=Option("A", 0)):
     return ("late2", a)
 
 
-EXPLICIT = ["plain", "dep", "with_callback", "with_effects", "preset", "defaults", "derivative", "disp", "abstract", "nocache"]
+EXPLICIT = ["plain", "dep", "with_callback", "with_effects", "preset", "defaults", "derivative", "disp", "abstract", "nocache", "cyclic", "counted"]
 
 
 # decorator form ---------------------------------------------------------
